@@ -172,7 +172,7 @@ def all_selected(case):
 
 
 # ---------------------------------------------------------------------------------------------------- real query
-def build(case, es, ps):
+def build(case, es, ps, quant="an"):
     from entity_query_language import symbolic_mode, an, the, entity, set_of, let, in_, or_, not_, for_all
     from entity_query_language.entity import flatten, concatenate
     with symbolic_mode():
@@ -236,7 +236,7 @@ def build(case, es, ps):
             raise ValueError(a)
         conds = [sym(case["c0"]), sym(case["c1"])] + [sym(a) for a in case["atoms"]]
         v = {"p": p, "e": e, "d": d}
-        q = an(set_of([v[s] for s in case["sel"]], *conds))
+        q = (the if quant == "the" else an)(set_of([v[s] for s in case["sel"]], *conds))
     plab = {id(x): f"Par{i}" for i, x in enumerate(ps)}
 
     def enc(row):
